@@ -40,6 +40,11 @@ def run(rep, kf, tier, seed):
     import contracts.collection_ind as cci
     engine_b.discharge(rep, kf, [crm.propagate_contract(), cbr.resolve_contract(), cci.from_data_inductive_contract()]
                        + cfp.all_contracts(), "C06", tier, seed)
+    # the top of the call chain: a rejected document never reaches Project.build; the command line reaches the stages unchanged;
+    # contradictory source options / unknown codec end in exit status 1
+    import contracts.pipeline as cpl
+    import contracts.process_config as cpc
+    engine_b.discharge(rep, kf, cpl.all_contracts() + [cpc.process_config_contract()], "C06", tier, seed)
     import contracts.closure as clo
     clo.macro_presence_obligations(rep, "C06")
     import contracts.containment as ct
